@@ -940,6 +940,11 @@ func newScanner(i io.Reader) *bufio.Scanner {
 				// We have a line terminated by single newline.
 				return i + 1, data[0:i], nil
 			}
+			// A carriage return at the very end of the buffered data may be the first half of a
+			// CR LF pair delivered in two reads: request more data before deciding.
+			if i == len(data)-1 && !atEOF {
+				return 0, nil, nil
+			}
 			advance = i + 1
 			if len(data) > i+1 && data[i+1] == '\n' {
 				advance += 1
